@@ -39,21 +39,70 @@ type c01Backend interface {
 
 // ---- in-memory
 
-type c01MemBackend struct{ *doubles.MemBackend }
+type c01MemBackend struct {
+	*doubles.MemBackend
+	lockIgnoresCtx *bool
+}
 
-func (b c01MemBackend) Handle(inst string) certmagic.Storage { return b.MemBackend.Handle(inst) }
-func (b c01MemBackend) LockID(name string) string            { return name }
-func (b c01MemBackend) GetLog() *doubles.Log                 { return b.MemBackend.Log }
-func (b c01MemBackend) Close()                               {}
+// Handle: with lockIgnoresCtx the Locker grants an uncontended lock whatever the state of the caller's
+// context (as FileStorage.Lock does: it consults the context only while it waits for a held lock).
+func (b c01MemBackend) Handle(inst string) certmagic.Storage {
+	return &c01MemHandle{MemStorage: b.MemBackend.Handle(inst), b: b}
+}
+
+type c01MemHandle struct {
+	*doubles.MemStorage
+	b c01MemBackend
+}
+
+func (h *c01MemHandle) Lock(ctx context.Context, name string) error {
+	if h.b.lockIgnoresCtx == nil || !*h.b.lockIgnoresCtx {
+		return h.MemStorage.Lock(ctx, name)
+	}
+	// like FileStorage.Lock: the context matters only while the lock is held by somebody else
+	ctx2, cancel2 := context.WithCancel(context.WithoutCancel(ctx))
+	defer cancel2()
+	done := make(chan struct{})
+	defer close(done)
+	go func() {
+		select {
+		case <-ctx.Done():
+		case <-done:
+			return
+		}
+		for {
+			if o := h.b.MemBackend.LockOwner(name); o != "" && o != h.MemStorage.Inst {
+				cancel2()
+				return
+			}
+			select {
+			case <-done:
+				return
+			case <-time.After(time.Millisecond):
+			}
+		}
+	}()
+	return h.MemStorage.Lock(ctx2, name)
+}
+
+func (b c01MemBackend) LockID(name string) string { return name }
+func (b c01MemBackend) GetLog() *doubles.Log      { return b.MemBackend.Log }
+func (b c01MemBackend) Close()                    {}
 
 // ---- FileStorage
 
 type c01FileBackend struct {
 	fs    *certmagic.FileStorage
 	dir   string
-	log   doubles.Log
+	log   *doubles.Log
 	mu    sync.Mutex
 	owner map[string]string // lock file -> instance
+	// the gate does not fail a Lock call for a cancelled context (FileStorage.Lock itself looks at the
+	// context only while it waits for a held lock)
+	lockIgnoresCtx bool
+	// the lock file a dead holder left behind (leaveLockFile): not a lock anybody holds as long as it is untouched
+	deadName    string
+	deadContent []byte
 }
 
 func c01NewFileBackend() (*c01FileBackend, error) {
@@ -61,7 +110,7 @@ func c01NewFileBackend() (*c01FileBackend, error) {
 	if err != nil {
 		return nil, err
 	}
-	return &c01FileBackend{fs: &certmagic.FileStorage{Path: dir}, dir: dir, owner: map[string]string{}}, nil
+	return &c01FileBackend{fs: &certmagic.FileStorage{Path: dir}, dir: dir, owner: map[string]string{}, log: &doubles.Log{}}, nil
 }
 
 func (b *c01FileBackend) Close() { os.RemoveAll(b.dir) }
@@ -74,7 +123,7 @@ func (b *c01FileBackend) leaveLockFile(name, kind string) error {
 	}
 	var content []byte
 	switch kind {
-	case "empty":
+	case "empty", "empty-fresh":
 	case "stale":
 		ts := time.Now().Add(-time.Hour)
 		content, _ = json.Marshal(map[string]any{"created": ts, "updated": ts})
@@ -84,9 +133,19 @@ func (b *c01FileBackend) leaveLockFile(name, kind string) error {
 	default:
 		return fmt.Errorf("unknown crash_lock kind %q", kind)
 	}
-	return os.WriteFile(p, content, 0o644)
+	b.deadName, b.deadContent = filepath.Base(p), content
+	if err := os.WriteFile(p, content, 0o644); err != nil {
+		return err
+	}
+	if kind == "empty" || kind == "stale" {
+		// the holder died long ago (an empty lock file is given up only once its modification time is older
+		// than the staleness bound; "empty-fresh": it has just died)
+		old := time.Now().Add(-time.Hour)
+		return os.Chtimes(p, old, old)
+	}
+	return nil
 }
-func (b *c01FileBackend) GetLog() *doubles.Log { return &b.log }
+func (b *c01FileBackend) GetLog() *doubles.Log { return b.log }
 func (b *c01FileBackend) LockID(name string) string {
 	return filepath.Base(certmagic.VerifLocksFileLockPath(b.fs, name))
 }
@@ -119,6 +178,11 @@ func (b *c01FileBackend) HeldLocks() []string {
 	var out []string
 	for _, e := range ents {
 		if strings.HasSuffix(e.Name(), ".lock") {
+			if e.Name() == b.deadName {
+				if c, err := os.ReadFile(filepath.Join(b.dir, "locks", e.Name())); err == nil && string(c) == string(b.deadContent) {
+					continue // nobody asked for this lock: the dead holder's file is still lying there
+				}
+			}
 			out = append(out, e.Name())
 		}
 	}
@@ -143,7 +207,7 @@ func (h *c01FileHandle) begin(ctx context.Context, kind, key string) (int, error
 		ce = err.Error()
 	}
 	seq, err := h.b.log.Begin(doubles.Op{Inst: h.inst, Kind: kind, Key: key, CtxErr: ce})
-	if err == nil && kind != "Unlock" {
+	if err == nil && kind != "Unlock" && !(kind == "Lock" && h.b.lockIgnoresCtx) {
 		if cerr := ctx.Err(); cerr != nil {
 			h.b.log.SetErr(seq, cerr)
 			return seq, cerr
